@@ -34,6 +34,8 @@ class TableFilter:
     def filter(self, item):
         outs, raises, kind = self.table[item]
         for o in outs: yield o
+        if raises and kind == "EXIT":      # the worker process dies without reporting (real-process layer only)
+            import os; os._exit(3)
         if raises: raise EXC[kind]("filter error on item %d" % item)
 
 # ------------------------------------------------------------------ the baton scheduler
@@ -101,6 +103,13 @@ class FakeQueue:
     def __init__(self, sched, maxsize=0): self.s, self.max, self.items = sched, maxsize, []
     def __deepcopy__(self, memo): return self
     def qsize(self): return len(self.items)
+    def empty(self): return not self.items
+    def full(self): return bool(self.max) and len(self.items) >= self.max
+    def put_nowait(self, x):
+        if self.full(): raise pyqueue.Full()
+        self.items.append(x); self.s.progress = True
+    def join_thread(self): pass
+    def cancel_join_thread(self): pass
     def put(self, x):
         actor = getattr(TL, "actor", None)
         if actor is not None and actor[0] in ("L", "LC", "W"):
@@ -349,7 +358,9 @@ if __name__ == "__main__":
 def smoke(ctx, k):
     rng = ctx.rng
     cases = [(1, 0, [([0, 1], False, None), ([2], False, None)], False), (1, 2, [([0], False, None), ([1], True, "RuntimeError"), ([2], False, None)], True),
-             (2, 1, [([0], False, None), ([1, 2], True, "AssertionError"), ([3], False, None)], False)]
+             (2, 1, [([0], False, None), ([1, 2], True, "AssertionError"), ([3], False, None)], False),
+             (2, 0, [([0], False, None), ([1], True, "EXIT"), ([2], False, None), ([3], False, None)], False),
+             (1, 2, [([0], True, "EXIT"), ([1], False, None)], False)]
     for _ in range(k):
         n, m, ab, table, _ = gen_case(rng)
         cases.append((n, m, table, rng.random() < 0.3))
@@ -359,11 +370,16 @@ def smoke(ctx, k):
     open(sf, "w").write(SMOKE % dict(repo=REPO, verif=VERIF))
     try:
         env = dict(os.environ, PYTHONHASHSEED="0")
+        import signal
+        pr = subprocess.Popen([sys.executable, "-W", "ignore", sf, cf], stdout=subprocess.PIPE, stderr=subprocess.PIPE, text=True, env=env, start_new_session=True)
         try:
-            p = subprocess.run([sys.executable, "-W", "ignore", sf, cf], capture_output=True, text=True, timeout=30 + 12 * len(cases), env=env)
-            out, hung = p.stdout, False
-        except subprocess.TimeoutExpired as e:
-            out, hung = (e.stdout or b"").decode() if isinstance(e.stdout, bytes) else (e.stdout or ""), True
+            so, se = pr.communicate(timeout=30 + 12 * len(cases)); hung = False
+        except subprocess.TimeoutExpired:
+            try: os.killpg(pr.pid, signal.SIGKILL)      # the child and the worker processes it spawned
+            except OSError: pass
+            so, se = pr.communicate(); hung = True
+        class p: stdout, stderr = so, se
+        out = so
         done, started = {}, -1
         for line in out.splitlines():
             try: rec = json.loads(line)
@@ -377,6 +393,7 @@ def smoke(ctx, k):
                 elif not hung and i <= started: ctx.fail(["smoke", "crashed"], "the real-process run died: %s" % (p.stderr[-300:],), desc)
                 continue
             ctx.count("real:%s" % done[i][0], repr(desc), True)
+            if any(kd == "EXIT" for _, _, kd in table): continue      # a worker that dies: the call must come back (no hang); what it returns is outside the property
             raising = [j for j, (_, r, _) in enumerate(table) if r]
             all_outs = [o for outs, _, _ in table for o in outs]
             if done[i][0] == "returned":
